@@ -470,7 +470,16 @@ func runHistory(w *World, cfg seqCfg) bool {
 	if r.main == nil {
 		return false
 	}
-	if !w.SetColl(r.main, r.anyName()) {
+	// now and then a snapshot of the still empty store (no collections at
+	// all), and now and then a history that starts without any collection
+	if cfg.profile["snapshot"] > 0 && w.rng.Intn(5) == 0 {
+		if s := w.Snapshot(r.main); s != nil {
+			r.snaps = append(r.snaps, s)
+		} else {
+			return false
+		}
+	}
+	if w.rng.Intn(8) != 0 && !w.SetColl(r.main, r.anyName()) {
 		return false
 	}
 	for i := 0; i < cfg.steps; i++ {
